@@ -642,6 +642,143 @@ fn run_hangup(lite_listener: bool, pay_d: usize, listener_first: bool) -> Vec<(S
 }
 
 // ------------------------------------------------------------------------------------------------
+// a conforming dialer that does not pipeline
+// ------------------------------------------------------------------------------------------------
+
+async fn read_frame<R: AsyncRead + Unpin>(io: &mut R) -> Result<Vec<u8>, String> {
+    let mut len = 0usize;
+    let mut shift = 0u32;
+    loop {
+        let mut b = [0u8; 1];
+        match io.read(&mut b).await {
+            Ok(0) => return Err("eof".into()),
+            Ok(_) => {}
+            Err(e) => return Err(err_io(&e)),
+        }
+        len |= ((b[0] & 0x7f) as usize) << shift;
+        if b[0] & 0x80 == 0 {
+            break;
+        }
+        shift += 7;
+        if shift > 21 {
+            return Err("length prefix too long".into());
+        }
+    }
+    let (got, err) = read_n(io, len).await;
+    match err {
+        None => Ok(got),
+        Some(Ok(())) => Err("eof inside a frame".into()),
+        Some(Err(e)) => Err(err_io(&e)),
+    }
+}
+
+/// The multistream-select handshake written out step by step, the way py-libp2p and older js-libp2p dial: send the
+/// header ALONE, wait for the listener's header, then propose one name at a time and wait for each answer. Both sides are
+/// required to send their header unprompted, so the litep2p listener must terminate with this dialer exactly as it does
+/// with a pipelining one: agreement on the first name of `list` the listener supports, failure if there is none.
+fn run_stepwise_dialer(list: &[String], set: &[String], listener_first: bool) -> Vec<(String, String)> {
+    let desc = json!({"kind": "stepwise-dialer", "dialer": list, "listener": set, "first": if listener_first { "listener" } else { "dialer" }});
+    let expected: Option<String> = list.iter().find(|n| set.contains(n)).cloned();
+    let rt = driver::runtime(1);
+    rt.block_on(async move {
+        let (a, b, _h_d2l, _h_l2d) = pipe::duplex(pipe::Policy::default(), pipe::Policy::default());
+        let mut a = Shaped { inner: a, split_at: None, nread: 0 };
+        let b = Shaped { inner: b, split_at: None, nread: 0 };
+        let sd: Arc<Mutex<Side>> = Arc::new(Mutex::new(Side { phase: "header", ..Default::default() }));
+        let sl: Arc<Mutex<Side>> = Arc::new(Mutex::new(Side { phase: "select", ..Default::default() }));
+        let wp_d = payload(3, Dir::D2L);
+        let wp_l = payload(3, Dir::L2D);
+        let mut d = driver::Driver::new();
+        let fut_d: driver::BoxFut = {
+            let (o, names, wp, n) = (sd.clone(), list.to_vec(), wp_d.clone(), wp_l.len());
+            Box::pin(async move {
+                let fail = |o: &Arc<Mutex<Side>>, why: String| o.lock().outcome = Some(Err(why));
+                if a.write_all(&frame(b"/multistream/1.0.0\n")).await.is_err() || a.flush().await.is_err() {
+                    return fail(&o, "write header".into());
+                }
+                o.lock().phase = "await-header";
+                match read_frame(&mut a).await {
+                    Ok(f) if f == b"/multistream/1.0.0\n" => {}
+                    other => return fail(&o, format!("expected the listener's header, got {other:?}")),
+                }
+                let mut agreed = None;
+                for name in &names {
+                    o.lock().phase = "propose";
+                    let mut line = name.clone().into_bytes();
+                    line.push(b'\n');
+                    if a.write_all(&frame(&line)).await.is_err() || a.flush().await.is_err() {
+                        return fail(&o, "write proposal".into());
+                    }
+                    o.lock().phase = "await-answer";
+                    match read_frame(&mut a).await {
+                        Ok(f) if f == line => {
+                            agreed = Some(name.clone());
+                            break;
+                        }
+                        Ok(f) if f == b"na\n" => continue,
+                        other => return fail(&o, format!("answer to {name:?}: {other:?}")),
+                    }
+                }
+                let Some(name) = agreed else {
+                    let _ = a.close().await;
+                    return fail(&o, "no protocol".into());
+                };
+                o.lock().selected = Some(name.clone());
+                o.lock().phase = "payload";
+                if a.write_all(&wp).await.is_err() || a.flush().await.is_err() {
+                    return fail(&o, "write payload".into());
+                }
+                let (got, _) = read_n(&mut a, n).await;
+                o.lock().received = got;
+                let _ = a.close().await;
+                o.lock().outcome = Some(Ok(name));
+                o.lock().phase = "done";
+            })
+        };
+        let fut_l: driver::BoxFut = {
+            let (o, ln, wp) = (sl.clone(), set.to_vec(), wp_l.clone());
+            Box::pin(async move {
+                let sel = lv::listener_select_proto(b, ln).await.map_err(|e| err_lite(&e));
+                listener_app(sel, o, wp).await
+            })
+        };
+        if listener_first {
+            d.spawn("listener", fut_l);
+            d.spawn("dialer", fut_d);
+        } else {
+            d.spawn("dialer", fut_d);
+            d.spawn("listener", fut_l);
+        }
+        let finished = d.run_until_stalled(STEP_CAP);
+        let all_done = d.all_done();
+        drop(d);
+        let (sd, sl) = (sd.lock().clone(), sl.lock().clone());
+        let mut v = Vec::new();
+        if !finished || !all_done {
+            v.push((
+                "terminate/hang/stepwise-dialer".to_string(),
+                format!("negotiation with a dialer that does not pipeline never ended: dialer phase={} outcome={:?}, listener phase={} outcome={:?}; {desc}", sd.phase, sd.outcome, sl.phase, sl.outcome),
+            ));
+            return v;
+        }
+        let got_d = sd.outcome.clone().and_then(|r| r.ok());
+        let got_l = sl.outcome.clone().and_then(|r| r.ok());
+        if got_d != expected || got_l != expected {
+            v.push((
+                "agree/stepwise-dialer".to_string(),
+                format!("expected both sides to end with {expected:?}; dialer {:?}, listener {:?}; {desc}", sd.outcome, sl.outcome),
+            ));
+        } else if expected.is_some() && (sd.received != wp_l || sl.received != wp_d) {
+            v.push((
+                "payload/stepwise-dialer".to_string(),
+                format!("payload after the negotiation: dialer received {:?} (expected {:?}), listener received {:?} (expected {:?}); {desc}", sd.received, wp_l, sl.received, wp_d),
+            ));
+        }
+        v
+    })
+}
+
+// ------------------------------------------------------------------------------------------------
 // one execution
 // ------------------------------------------------------------------------------------------------
 
@@ -1635,6 +1772,29 @@ pub fn run(ctx: &mut Ctx) {
         ctx.sub("listener_hangs_up_after_answer", json!({"runs": n}));
     }
 
+    // ---- a conforming dialer that does not pipeline (header alone, then one proposal at a time) ----
+    {
+        let mut n = 0u64;
+        let lists = ordered_lists(&U4, if thorough { 4 } else { 3 });
+        let sets = listener_sets(&U4);
+        let mut agreed = 0u64;
+        for list in &lists {
+            for set in &sets {
+                for listener_first in [false, true] {
+                    n += 1;
+                    if list.iter().any(|x| set.contains(x)) {
+                        agreed += 1;
+                    }
+                    for (sig, what) in run_stepwise_dialer(list, set, listener_first) {
+                        ctx.violation(Violation { signature: sig, what, replay: json!({"kind": "stepwise-dialer", "dialer": list, "listener": set, "listener_first": listener_first}) });
+                    }
+                }
+            }
+        }
+        evals += n;
+        ctx.sub("stepwise_dialer_vs_litep2p_listener", json!({"runs": n, "with_intersection": agreed, "dialer_lists": lists.len(), "listener_sets": sets.len()}));
+    }
+
     // ---- message based ----
     let mut msg_runs = 0u64;
     let mut msg_nontrivial = 0u64;
@@ -1794,6 +1954,16 @@ pub fn replay(case: &Value) -> Result<String, String> {
             }
         }
         "fallback-map" => replay_fallback(case),
+        "stepwise-dialer" => {
+            let list: Vec<String> = case["dialer"].as_array().map(|a| a.iter().filter_map(|x| x.as_str().map(String::from)).collect()).unwrap_or_default();
+            let set: Vec<String> = case["listener"].as_array().map(|a| a.iter().filter_map(|x| x.as_str().map(String::from)).collect()).unwrap_or_default();
+            let v = run_stepwise_dialer(&list, &set, case["listener_first"].as_bool().unwrap_or(false));
+            if v.is_empty() {
+                Ok("both sides ended with the expected outcome".into())
+            } else {
+                Err(v.iter().map(|(s, w)| format!("VIOLATION [{s}] {w}")).collect::<Vec<_>>().join("\n"))
+            }
+        }
         "hangup" => {
             let v = run_hangup(
                 case["lite_listener"].as_bool().unwrap_or(true),
